@@ -248,13 +248,35 @@ def register(props):
                       "by struct-mapped objects and a typed string enum is not describable), C09_erase_invisible_all_paths (no "
                       "hypothesis on the schema), C09_behaviour_plugin_all_paths (every data schema of a rebuilt plugin schema), "
                       "C09_plugin (whole plugin schemas with signal data schemas), "
-                      "C09_not_describable_refuted (the hypothesis is necessary: D28, D29, D69 witnesses). NOT proved: YAML transport "
+                      "C09_not_describable_refuted (the hypothesis is necessary: D28, D29, D69 witnesses). "
+                      "Over the GENERATED meta-schema table (Generated/MetaDesc.v = DescribeScope/DescribeSchema/DescribeStepOutput"
+                      "().SelfSerialize() of the SDK under test, re-dumped on every run, turned into a `schema` by the model's reader in "
+                      "Schema/MetaTable.v; regexp/syntax's parse of the table's patterns and encoding/json on its default texts dumped "
+                      "alongside): C09_accepted - for EVERY describable scope (all fourteen kinds at any nesting) whose patterns compile, the "
+                      "GENERIC Unserialize of Schema/Ops.v run on the Scope table accepts `describe s` at every fuel from the explicit bound "
+                      "c09_fuel s on (one lemma per meta object, 19 objects, induction over the described schema); C09_accepted_type - the "
+                      "same for the description of every describable type against the table's one-of over type_id; C09_accepted_plugin - "
+                      "the generated Schema table (what UnserializeSchema / ReadSchema run) accepts describe_plugin p for every plugin schema "
+                      "with admissible ids / displays and describable data scopes (the Schema table provably contains the Scope table's "
+                      "objects unchanged, plus Schema, Step, StepOutput, Signal); "
+                      "C09_table_agrees_with_reader_partial - (a) on describe s both the table and the hand-written reader accept, (b) for "
+                      "the kinds without fields (bool, any, pattern) the table accepts ANY value iff the reader does, and for the string, integer "
+                      "and float kinds whatever value the table accepts the reader accepts, at any fuel (string: its character units are "
+                      "Generated/Tables.v unit_characters, which is what the table carries; integer / float: through the nested Units and "
+                      "Unit objects and the multipliers map) - all six scalar kinds have table => reader on arbitrary values, (c) the table's "
+                      "defaulted fields are exactly Property.required, Object.id_unenforced, OneOfInt/OneOfString.discriminator_inlined, "
+                      "Ref.namespace, and for each the value the reader assumes for an absent field equals the table's default text as "
+                      "encoding/json decodes it. NOT proved: YAML transport "
                       "(tested on every case through yaml.v3); behaviour of a rebuilt schema whose ORIGINAL was struct-mapped (the "
                       "rebuilt one is map-based: different Go values by construction; tested, class exclusion as in C03); "
-                      "C09_accepted through the generated 1300-line table (DESIGN section 10 fall-back): the agreement of describe / rebuild / "
-                      "describable with the real SelfSerialize, UnserializeScope and UnserializeSchema is checked on every generated "
-                      "case of c09describe and every mutant of c10mutants instead.",
-        "level_note": "Model = Schema/Describe.v; tie = family c09describe (description compared node by node, acceptance, second "
-                      "description, CBOR and YAML normal forms, behaviour on inputs).",
+                      "`accepted by the table => accepted by the reader` for ARBITRARY values of the non-scalar kinds "
+                      "(enums, list, map, object, one-of, ref, scope - partial: tested by c10mutants on every mutated "
+                      "description); the StepOutput table (DescribeStepOutput) is dumped and rebuilt (Example meta_stepoutput_rebuilt) but has "
+                      "no acceptance theorem of its own (its objects are those of the Schema table).",
+        "level_note": "Model = Schema/Describe.v (reader, describe) and Schema/MetaTable.v (the generated table as a schema); tie = family "
+                      "c09describe (description compared node by node, acceptance, second description, CBOR and YAML normal forms, behaviour "
+                      "on inputs) and the re-dump of the table on every run: an edit of schema_schema.go that breaks acceptance of a "
+                      "description breaks a lemma of Proofs/C09AccTable.v / C09AccReader.v (coq-build, no-failing-input-found) unless a "
+                      "family finds the input first.",
         "design_ref": "DESIGN.md §5 C09",
     }
